@@ -2,6 +2,7 @@ import Driver.Json
 import Driver.CondOps
 import SigmaVerif.Model.Gate
 import SigmaVerif.Model.Cond
+import SigmaVerif.Spec.PipeConds
 namespace Driver
 open Lean SigmaVerif SigmaVerif.Gate
 
@@ -57,5 +58,266 @@ def gateEval (j : Json) : Except String Json := do
       pure (Json.bool (it.onDetItem (fnOf rr) (fnOf dr) (fnOf fr)))
     pure (Json.mkObj [("onRule", Json.bool (it.onRule (fnOf rr))), ("onDet", .arr outs.toArray)])
   | _, _, _ => pure (Json.mkObj [("exprError", true)])
+
+
+/-! ## `gate.case`: the full specification (`Spec/PipeConds.lean`) on an ORIGINAL rule + pipeline description -/
+namespace GateCase
+open SigmaVerif.PipeConds
+
+def optStr (j : Json) (k : String) : Except String (Option Str) :=
+  match j.getObjVal? k with
+  | .ok .null => pure none
+  | .ok v => do pure (some (← strOfJson v))
+  | .error _ => pure none
+
+def numOfJson (j : Json) : Except String Num := do
+  match (← j.getArr?).toList with
+  | [a, b] => pure { m := ← a.getInt?, e := ← b.getNat? }
+  | _ => throw "number expected as [mantissa, exponent]"
+
+def scalarOfJson (j : Json) : Except String Scalar := do
+  match j.getObjVal? "s", j.getObjVal? "n", j.getObjVal? "b" with
+  | .ok s, _, _ => pure (.str (← strOfJson s))
+  | _, .ok n, _ => pure (.num (← numOfJson n))
+  | _, _, .ok (.bool b) => pure (.bool b)
+  | _, _, _ => throw s!"scalar expected: {j.compress}"
+
+def valOfJson (j : Json) : Except String Val := do
+  match j with
+  | .null => pure .null
+  | _ =>
+    match j.getObjVal? "s", j.getObjVal? "n", j.getObjVal? "b", j.getObjVal? "ref" with
+    | .ok s, _, _, _ => pure (.str (SStr.parse (← strOfJson s)))
+    | _, .ok n, _, _ => pure (.num (← numOfJson n))
+    | _, _, .ok (.bool b), _ => pure (.bool b)
+    | _, _, _, .ok r => pure (.ref (← strOfJson r))
+    | _, _, _, _ => pure .other
+
+def logsourceOfJson (j : Json) : Except String LogSource := do
+  pure { category := ← optStr j "category", product := ← optStr j "product", service := ← optStr j "service" }
+
+def attrOfJson (j : Json) : Except String AttrVal := do
+  match j.getObjVal? "str", j.getObjVal? "num", j.getObjVal? "date", j.getObjVal? "level", j.getObjVal? "status", j.getObjVal? "list" with
+  | .ok s, _, _, _, _, _ => pure (.str (← strOfJson s))
+  | _, .ok n, _, _, _, _ => pure (.num (← numOfJson n))
+  | _, _, .ok d, _, _, _ =>
+    match (← d.getArr?).toList with
+    | [y, m, dd] => pure (.date (← y.getNat?) (← m.getNat?) (← dd.getNat?))
+    | _ => throw "date expected as [y, m, d]"
+  | _, _, _, .ok l, _, _ => pure (match enumIdx? levelNames (← strOfJson l) with | some i => .level i | none => .unsupported)
+  | _, _, _, _, .ok l, _ => pure (match enumIdx? statusNames (← strOfJson l) with | some i => .status i | none => .unsupported)
+  | _, _, _, _, _, .ok xs => do pure (.list (← (← xs.getArr?).toList.mapM strOfJson))
+  | _, _, _, _, _, _ => pure .unsupported
+
+def worldOfJson (j : Json) : Except String World := do
+  let items ← (← (← j.getObjVal? "items").getArr?).toList.mapM fun it => do
+    let vals ← (← (← it.getObjVal? "values").getArr?).toList.mapM valOfJson
+    let applied ← match it.getObjVal? "applied" with
+      | .ok a => (← a.getArr?).toList.mapM strOfJson
+      | .error _ => pure []
+    pure ({ det := ← getStr it "det", field := ← optStr it "field", values := vals, applied := applied } : DetItem)
+  let attrs ← (← (← j.getObjVal? "attrs").getArr?).toList.mapM fun a => do
+    match (← a.getArr?).toList with
+    | [k, v] => pure ((← strOfJson k), (← attrOfJson v))
+    | _ => throw "attribute expected as [name, value]"
+  let kind := match j.getObjVal? "kind" with | .ok (.str "correlation") => RuleKind.correlation | _ => RuleKind.sigma
+  let refSources ← match j.getObjVal? "refSources" with
+    | .ok a => (← a.getArr?).toList.mapM logsourceOfJson
+    | .error _ => pure []
+  pure { kind := kind, logsource := ← logsourceOfJson (← j.getObjVal? "logsource"), refSources := refSources,
+         items := items, fields := ← getStrList j "fields", applied := [], state := [], nameApplied := [],
+         attrs := attrs, tags := ← getStrList j "tags" }
+
+def typeOf (j : Json) : Except String String := do
+  match ← j.getObjVal? "type" with
+  | .str s => pure s
+  | _ => throw "condition type expected"
+
+def opOfJson (j : Json) (k : String) : Except String Op :=
+  match j.getObjVal? k with
+  | .ok (.str "eq") | .error _ => pure .eq
+  | .ok (.str "ne") => pure .ne
+  | .ok (.str "gte") => pure .gte
+  | .ok (.str "gt") => pure .gt
+  | .ok (.str "lte") => pure .lte
+  | .ok (.str "lt") => pure .lt
+  | .ok v => throw s!"unknown relation {v.compress}"
+
+def stateOfJson (j : Json) : Except String StateCond := do
+  pure { key := ← getStr j "key", val := ← scalarOfJson (← j.getObjVal? "val"), op := ← opOfJson j "op" }
+
+def allOfJson (j : Json) : Except String Bool :=
+  match j.getObjVal? "cond" with
+  | .ok (.str "any") => pure false
+  | .ok (.str "all") => pure true
+  | _ => throw "cond must be any or all"
+
+def ruleCondOfJson (j : Json) : Except String RuleCond := do
+  match ← typeOf j with
+  | "logsource" => pure (.logsource (← logsourceOfJson j))
+  | "contains_field" => pure (.containsField (← getStr j "field"))
+  | "contains_detection_item" => pure (.containsDetItem (← getStr j "field") (← scalarOfJson (← j.getObjVal? "value")))
+  | "processing_item_applied" => pure (.itemApplied (← getStr j "processing_item_id"))
+  | "processing_state" => pure (.state (← stateOfJson j))
+  | "is_sigma_rule" => pure .isSigmaRule
+  | "is_sigma_correlation_rule" => pure .isCorrelation
+  | "rule_attribute" =>
+    let op ← match j.getObjVal? "op" with
+      | .ok (.str "in") => pure AttrOp.isIn
+      | .ok (.str "not_in") => pure AttrOp.notIn
+      | _ => do pure (AttrOp.cmp (← opOfJson j "op"))
+    pure (.attr (← getStr j "attribute") (← scalarOfJson (← j.getObjVal? "value")) op)
+  | "tag" => pure (.tag (← getStr j "tag"))
+  | t => throw s!"unknown rule condition {t}"
+
+def detCondOfJson (j : Json) : Except String DetCond := do
+  match ← typeOf j with
+  | "match_string" => pure (.matchString (← allOfJson j) (← getStr j "pattern") (getBoolD j "negate" false))
+  | "match_value" => pure (.matchValue (← allOfJson j) (← scalarOfJson (← j.getObjVal? "value")))
+  | "contains_wildcard" => pure (.containsWildcard (← allOfJson j))
+  | "is_null" => pure (.isNull (← allOfJson j))
+  | "processing_item_applied" => pure (.itemApplied (← getStr j "processing_item_id"))
+  | "processing_state" => pure (.state (← stateOfJson j))
+  | t => throw s!"unknown detection item condition {t}"
+
+def fieldCondOfJson (j : Json) : Except String FieldCond := do
+  let re := match j.getObjVal? "mode" with | .ok (.str "re") => true | _ => false
+  match ← typeOf j with
+  | "include_fields" => pure (.incl (← getStrList j "fields") re)
+  | "exclude_fields" => pure (.excl (← getStrList j "fields") re)
+  | "processing_item_applied" => pure (.itemApplied (← getStr j "processing_item_id"))
+  | "processing_state" => pure (.state (← stateOfJson j))
+  | t => throw s!"unknown field name condition {t}"
+
+/-- `none` = the condition expression is not readable / refers to an unknown identifier -/
+def groupOfJson' {α : Type} (g : Cond.Grammar) (leaf : Json → Except String α) (j : Json) : Except String (Option (PipeConds.Group α)) := do
+  let conds ← (← (← j.getObjVal? "conds").getArr?).toList.mapM leaf
+  let neg := getBoolD j "neg" false
+  match j.getObjVal? "link" with
+  | .ok (.str "all") => pure (some { conds := conds, link := .all, neg := neg })
+  | .ok (.str "any") => pure (some { conds := conds, link := .any, neg := neg })
+  | .ok lj => do
+      let text ← getStr lj "expr"
+      let ids ← getStrList lj "ids"
+      match Cond.parse g text with
+      | some pt => pure ((bxOfPT ids pt).map (fun e => { conds := conds, link := .expr e, neg := neg }))
+      | none => pure none
+  | .error e => throw e
+
+def actionOfJson (j : Json) : Except String Action := do
+  match ← typeOf j with
+  | "set_state" => pure (.setState (← getStr j "key") (← scalarOfJson (← j.getObjVal? "val")))
+  | "field_name_mapping" =>
+    let mp ← (← (← j.getObjVal? "mapping").getArr?).toList.mapM fun kv => do
+      match (← kv.getArr?).toList with
+      | [k, v] => pure ((← strOfJson k), (← strOfJson v))
+      | _ => throw "mapping entry expected as [from, to]"
+    pure (.mapFields mp)
+  | "field_name_suffix" => pure (.suffix (← getStr j "suffix"))
+  | "change_logsource" => pure (.changeLogsource (← logsourceOfJson j))
+  | "drop_detection_item" => pure .dropItem
+  | t => throw s!"unknown transformation {t}"
+
+def pitemOfJson (g : Cond.Grammar) (j : Json) : Except String (Option PItem) := do
+  let r ← groupOfJson' g ruleCondOfJson (← j.getObjVal? "rule")
+  let d ← groupOfJson' g detCondOfJson (← j.getObjVal? "det")
+  let f ← groupOfJson' g fieldCondOfJson (← j.getObjVal? "field")
+  match r, d, f with
+  | some r, some d, some f =>
+    pure (some { id := ← optStr j "id", rule := r, det := d, field := f, action := ← actionOfJson (← j.getObjVal? "action") })
+  | _, _, _ => pure none
+
+/-- the regular-expression table: (pattern, subject) ↦ `re.match(pattern, subject) is not None` -/
+def tableOfJson (j : Json) : Except String (List (Str × Str × Bool)) := do
+  (← j.getArr?).toList.mapM fun e => do
+    match (← e.getArr?).toList with
+    | [p, s, .bool b] => pure ((← strOfJson p), (← strOfJson s), b)
+    | _ => throw "table entry expected as [pattern, subject, bool]"
+
+def tableLookup (tbl : List (Str × Str × Bool)) (p s : Str) : Option Bool :=
+  (tbl.find? fun e => e.1 == p && e.2.1 == s).map (·.2.2)
+
+def patternsOf (p : PItem) : List Str × List Str :=
+  (p.det.conds.filterMap fun c => match c with | .matchString _ pat _ => some pat | _ => none,
+   p.field.conds.flatMap fun c => match c with | .incl fs true => fs | .excl fs true => fs | _ => [])
+
+def worldNames (w : World) : List Str :=
+  w.fields ++ w.items.flatMap fun it => it.field.toList ++ it.refs
+
+def worldStrings (w : World) : List Str :=
+  w.items.flatMap fun it => it.values.filterMap fun v => match v with | .str s => some (SStr.toPlain s) | _ => none
+
+def boolsToJson (bs : List Bool) : Json := .arr (bs.map Json.bool).toArray
+
+/-- worlds along the run: before each item, and after the last -/
+def worldsAlong (m : Str → Str → Bool) : List PItem → World → List World
+  | [], w => [w]
+  | p :: rest, w => w :: worldsAlong m rest (p.step m w)
+
+def gateCore (g : Cond.Grammar) (reJ : Json) (j : Json) : Except String Json := do
+  let w0 ← worldOfJson (← j.getObjVal? "world")
+  let pitems ← (← (← j.getObjVal? "items").getArr?).toList.mapM (pitemOfJson g)
+  if pitems.any Option.isNone then
+    return Json.mkObj [("exprError", true)]
+  let items := pitems.filterMap id
+  let tbl ← tableOfJson reJ
+  let m : Str → Str → Bool := fun p s => (tableLookup tbl p s).getD false
+  match items.reverse with
+  | [] => throw "pipeline without probe"
+  | probe :: revPre =>
+    let pre := revPre.reverse
+    let worlds := worldsAlong m items w0
+    -- every regular-expression question the specification can ask must be answered by the table
+    for (p, w) in items.zip worlds do
+      let (vp, fp) := patternsOf p
+      for pat in vp do
+        for s in worldStrings w do
+          if (tableLookup tbl pat s).isNone then throw s!"no table entry for pattern {showStr pat} on value {showStr s}"
+      for pat in fp do
+        for s in worldNames w do
+          if (tableLookup tbl pat s).isNone then throw s!"no table entry for pattern {showStr pat} on field name {showStr s}"
+    let w := runPipe m pre w0
+    let after := runPipe m items w0
+    let clash := items.zip worlds |>.any fun (p, w) =>
+      p.rule.conds.any (fun c => match c with | .state c => !c.wellTyped w.state | _ => false) ||
+      p.det.conds.any (fun c => match c with | .state c => !c.wellTyped w.state | _ => false) ||
+      p.field.conds.any (fun c => match c with | .state c => !c.wellTyped w.state | _ => false)
+    let leaves := Json.mkObj [
+      ("rule", boolsToJson (probe.rule.conds.map (RuleCond.eval w))),
+      ("ruleRaises", boolsToJson (probe.rule.conds.map (RuleCond.raises w))),
+      ("det", .arr (w.items.map fun it => boolsToJson (probe.det.conds.map (DetCond.eval m w it))).toArray),
+      ("fieldOnItem", .arr (w.items.map fun it => boolsToJson (probe.field.conds.map (FieldCond.onItem m w it))).toArray),
+      ("fieldOnName", .arr (w.items.map fun it => boolsToJson (probe.field.conds.map (FieldCond.onName m w it.field))).toArray)]
+    pure (Json.mkObj [
+      ("raises", Json.bool (runRaises m items w0)),
+      ("clash", Json.bool clash),
+      ("flags", boolsToJson (runFlags m items w0)),
+      ("onRule", Json.bool (probe.ruleHolds w)),
+      ("onDet", boolsToJson (w.items.map (probe.probeActs m w))),
+      ("groups", Json.mkObj [
+        ("det", boolsToJson (w.items.map (probe.detHolds m w))),
+        ("fieldOnItem", boolsToJson (w.items.map (probe.fieldHoldsOnItem m w))),
+        ("fieldOnName", boolsToJson (w.items.map fun it => probe.fieldHoldsOnName m w it.field))]),
+      ("before", .arr (w.items.map fun it => Json.mkObj [("det", strToJson it.det),
+          ("field", match it.field with | some f => strToJson f | none => .null),
+          ("applied", .arr (it.applied.map strToJson).toArray)]).toArray),
+      ("after", .arr (after.items.map fun it => Json.mkObj [("det", strToJson it.det),
+          ("field", match it.field with | some f => strToJson f | none => .null)]).toArray),
+      ("applied", .arr (after.applied.map strToJson).toArray),
+      ("leaves", leaves)])
+
+/-- `gate.case`: world + pipeline (+ optionally a second world + pipeline under `alt`, used by the
+harness to attribute a disagreement to a recorded finding) -/
+def gateCase (j : Json) : Except String Json := do
+  let g ← match j.getObjVal? "grammar" with
+    | .ok gj => grammarOfJson gj
+    | .error _ => pure { Cond.stdGrammar with quants := [] }
+  let reJ ← j.getObjVal? "re"
+  let main ← gateCore g reJ j
+  match j.getObjVal? "alt" with
+  | .ok a => do pure (main.setObjVal! "alt" (← gateCore g reJ a))
+  | .error _ => pure main
+
+end GateCase
 
 end Driver
